@@ -14,8 +14,9 @@
    C16_any_order is pure PDDL (no model); C16_sequential / C16_refuse / C16_nops / C16_export are about the model
    alone; C16_joint combines them: its premise [seq_refines] is the statement of C03 at the states visited. *)
 From Coq Require Import List String Bool PrimFloat Permutation.
-From Verif Require Import Base.Result Base.PyDict Model.Domain Model.Exec Model.Plan Model.Joint Spec.Pddl Spec.Joint
-  Proofs.C04_Thread Proofs.C16_Commute Proofs.C16_Joint Proofs.C16_Main Proofs.C16_Examples.
+From Verif Require Import Base.Result Base.Str Base.PyDict Model.Types Model.Domain Model.Exec Model.Plan Model.Joint
+  Spec.Pddl Spec.Joint Spec.Subst Proofs.C20_Defs Proofs.C20_Subst Proofs.C03_Defs
+  Proofs.C04_Thread Proofs.C04_Link Proofs.C16_Commute Proofs.C16_Joint Proofs.C16_Main Proofs.C16_Examples.
 Import ListNotations.
 
 (* ---------- PDDL level: order does not matter for non-interfering members ---------- *)
@@ -55,6 +56,14 @@ Theorem C16_sequential : forall d eps objs sch cur calls allow,
    Ok {| ms_init := false; ms_st := s' |}).
 Proof. exact apply_actions_sequential. Qed.
 
+(* inapplicable actions explicitly allowed: nothing is refused, the members are applied one after the other *)
+Theorem C16_allowed : forall d eps objs sch cur calls,
+  Forall (fun c => exists b, call_applicable d eps objs c (ms_st cur) = Ok b) (filter (fun c => negb (is_nop c)) calls) ->
+  apply_actions d eps objs sch cur calls true =
+  (do s' <- seq_members d eps objs sch (ms_st cur) (number (filter (fun c => negb (is_nop c)) calls));
+   Ok {| ms_init := false; ms_st := s' |}).
+Proof. exact apply_actions_allowed. Qed.
+
 (* some member inapplicable in the current state, inapplicable actions not allowed: ValueError - at whatever position
    the member stands ([before]: the applicable members in front of it, whose application raised nothing) *)
 Theorem C16_refuse : forall d eps objs sch cur calls before c after s1,
@@ -74,6 +83,25 @@ Theorem C16_joint : forall d eps objs tt sch cur calls allow ms,
   exists s', apply_actions d eps (Some objs) sch cur calls allow = Ok {| ms_init := false; ms_st := s' |} /\
              forall pi, Permutation ms pi -> st_equiv s' (seq_apply tt objs eps (ms_st cur) pi).
 Proof. exact joint_any_order. Qed.
+
+(* one step of the premise [seq_refines] (and the model's applicability test = Spec.Pddl.applicable) from the hypotheses
+   of C02_applicable_spec and C03_forced, for any visiting order o *)
+Theorem C16_link : forall d eps objs name a effs phi args ga s (o : orders),
+  dget (d_actions d) name = Some a ->
+  denote_pre (ma_pre a) = Some phi -> denote_effs a = Some effs -> names_ok d a = true ->
+  ground_action d a args = Ok ga ->
+  no_shadow (d_consts d) (dkeys (call_map a args) ++ pre_bvars (ma_pre a)) = true ->
+  pre_ok d true (dkeys (call_map a args)) (ma_pre a) = true ->
+  fdiv0 (d_types d) objs (bind_args (spec_action a effs) args) s (a_pre (spec_action a effs)) = false ->
+  evaluates d eps objs ga s ->
+  consistent (all_groups eps (d_types d) objs (spec_action a effs) args s) = true ->
+  is_order (fst o) (List.length (ga_groups ga)) -> is_order (snd o) (List.length (ma_univ a)) ->
+  let c := {| ac_name := name; ac_args := args |} in
+  let m : member := (spec_action a effs, args) in
+  call_applicable d eps (Some objs) c s = Ok (m_applicable (d_types d) objs eps s m) /\
+  forall ord, ord a = o ->
+    exists s', apply_call d eps (Some objs) true ord c s = Ok s' /\ st_equiv s' (m_step (d_types d) objs eps s m).
+Proof. exact link_joint_lemma. Qed.
 
 (* ---------- the exported multi-agent trajectory: one step per joint action, chained ---------- *)
 Theorem C16_export : forall d eps exporter_allow objs sch allow init lines ts,
@@ -140,8 +168,10 @@ Print Assumptions C16_any_order.
 Print Assumptions C16_stays_applicable.
 Print Assumptions C16_nops.
 Print Assumptions C16_sequential.
+Print Assumptions C16_allowed.
 Print Assumptions C16_refuse.
 Print Assumptions C16_joint.
+Print Assumptions C16_link.
 Print Assumptions C16_export.
 Print Assumptions C16_export_aborts.
 Print Assumptions C16_export_text.
